@@ -59,14 +59,17 @@ Proof.
   destruct (merge_files (d_cfg d) d1 order (d_active_id d1) (mkMs 0 a0 [] h0)) as [[d2 res] ev5] eqn:Hmf.
   destruct (merge_files_spec _ _ _ _ _ _ _ _ HF1 Hmf) as (HF2 & Hs2 & Hcfg2).
   assert (Hs : same_recs d d2) by (eapply same_recs_trans; eassumption).
-  assert (Hd' : d' = d2).
-  { destruct res as [ms|er ms].
-    - destruct (hf_close (c_io (d_cfg d)) (ms_hint ms)) as [h1 ev6].
-      destruct (h_close (c_io (d_cfg d)) (MData (ms_active_id ms)) (ms_active ms)) as [a1 ev7].
-      destruct (ms_close_older (c_io (d_cfg d)) (ms_older ms)) as [o1 ev8].
-      injection Hm as <- _ _ _. reflexivity.
-    - injection Hm as <- _ _ _. reflexivity. }
-  subst d'. split; [eapply Inv_same; eassumption|]. split; [eapply R_same; eassumption|congruence].
+  assert (HI2 : Inv d2) by (eapply Inv_same; eassumption).
+  assert (HR2 : R d2 m) by (eapply R_same; eassumption).
+  destruct res as [ms|er ms].
+  - destruct (hf_close (c_io (d_cfg d)) (ms_hint ms)) as [h1 ev6].
+    destruct (h_close (c_io (d_cfg d)) (MData (ms_active_id ms)) (ms_active ms)) as [a1 ev7].
+    destruct (ms_close_older (c_io (d_cfg d)) (ms_older ms)) as [o1 ev8].
+    destruct (db_sync d2) as [d3 evS] eqn:Hsy.
+    injection Hm as <- _ _ _.
+    destruct (db_sync_spec _ _ _ _ HI2 HR2 Hsy) as (HI3 & HR3 & Hc3).
+    split; [exact HI3|]. split; [exact HR3|congruence].
+  - injection Hm as <- _ _ _. split; [exact HI2|]. split; [exact HR2|congruence].
 Qed.
 
 (* ---- one operation ------------------------------------------------------------------------------- *)
